@@ -1898,6 +1898,16 @@ class Pipeline:
         for f in drop:
             pipeline.drop(f=f)
 
+        if output_names is not None and (
+            lost := [n for n in output_names if n not in pipeline.output_to_func]
+        ):
+            required = {arg for n in lost for arg in self.root_args(n)} - set(self.defaults)
+            msg = (
+                f"Cannot construct a partial pipeline for `{lost}` with `{inputs=}`,"
+                f" it would require `{required - set(inputs or ())}`."
+            )
+            raise ValueError(msg)
+
         if inputs is not None:
             new_root_args = set(pipeline.topological_generations.root_args) - set(pipeline.defaults)
             if not new_root_args.issubset(inputs):
